@@ -232,7 +232,27 @@ type wconn struct {
 	open    bool // a data/control message writer is open
 }
 
+// shareGroup is state shared by concurrently running writerRuns (C11: one
+// PreparedMessage set and one buffer pool used by many connections at once).
+type shareGroup struct {
+	mu    sync.Mutex
+	pool  *poolRec
+	pms   []*websocket.PreparedMessage
+	pmPay [][]byte
+	byGid map[int64]*writerRun
+}
+
+func (g *shareGroup) route(e Ev) {
+	g.mu.Lock()
+	r := g.byGid[xport.GID()]
+	g.mu.Unlock()
+	if r != nil {
+		r.emit(e)
+	}
+}
+
 type writerRun struct {
+	share *shareGroup
 	p     *WProg
 	conns []*wconn
 	pays  map[int][]byte // message id -> payload
@@ -450,7 +470,11 @@ func runWriterOnce(p *WProg, fault *WFault, id string) (evs []Ev, nops map[int]i
 }
 
 func runWriterKeep(p *WProg, fault *WFault, id string) (evs []Ev, nops map[int]int, r *writerRun) {
-	r = &writerRun{p: p, pays: map[int][]byte{}, xerrs: map[error]bool{}}
+	return runWriterShared(p, fault, id, nil)
+}
+
+func runWriterShared(p *WProg, fault *WFault, id string, g *shareGroup) (evs []Ev, nops map[int]int, r *writerRun) {
+	r = &writerRun{p: p, pays: map[int][]byte{}, xerrs: map[error]bool{}, share: g}
 	r.mask = installMask()
 	now := time.Now()
 	r.dls = map[string]time.Time{"d1": now.Add(time.Hour), "d2": now.Add(2 * time.Hour), "past": now.Add(-time.Hour)}
@@ -482,6 +506,11 @@ func runWriterKeep(p *WProg, fault *WFault, id string) (evs []Ev, nops map[int]i
 			}
 			done <- out
 		}()
+		if g != nil {
+			g.mu.Lock()
+			g.byGid[xport.GID()] = r
+			g.mu.Unlock()
+		}
 		out = r.exec(fault, &out)
 	}()
 	select {
@@ -504,7 +533,12 @@ func runWriterKeep(p *WProg, fault *WFault, id string) (evs []Ev, nops map[int]i
 
 func (r *writerRun) exec(fault *WFault, outp *[]Ev) (out []Ev) {
 	p := r.p
-	r.pool = &poolRec{ids: map[uintptr]int{}, emit: r.emit}
+	if r.share != nil {
+		r.pool = r.share.pool
+		r.pms, r.pmPay = r.share.pms, r.share.pmPay
+	} else {
+		r.pool = &poolRec{ids: map[uintptr]int{}, emit: r.emit}
+	}
 	for i, cc := range p.Conns {
 		sc := xport.New(nil)
 		sc.Block = true
@@ -529,6 +563,9 @@ func (r *writerRun) exec(fault *WFault, outp *[]Ev) (out []Ev) {
 	r.takeTx() // drop handshake-time pool events, if any
 	// prepared messages
 	for i, m := range p.PMs {
+		if r.share != nil {
+			break
+		}
 		pay := payFor(p.Seed, 500+i, m.Type, m.N)
 		if m.Type >= 8 && m.Type != 8 {
 			pay = wire.TextPay(p.Seed, 500+i, m.N)
@@ -697,7 +734,7 @@ func (r *writerRun) exec(fault *WFault, outp *[]Ev) (out []Ev) {
 			out = append(out, Ev{"e": "END", "c": ci, "pending": wc.dec.Pending()})
 		}
 	}
-	if !r.pool.finalCheck() {
+	if r.share == nil && !r.pool.finalCheck() {
 		out = append(out, Ev{"e": "TOUCHED"})
 	}
 	return out
@@ -719,4 +756,49 @@ func dlOr(s string) string {
 		return "zero"
 	}
 	return s
+}
+
+// RunShare runs the connections of p CONCURRENTLY, one goroutine each, sharing
+// one buffer pool and one set of prepared messages (C11, C19 concurrent
+// variants). Every connection yields its own single-connection writer trace.
+func RunShare(p *WProg) (evs []Ev) {
+	installMask()
+	g := &shareGroup{byGid: map[int64]*writerRun{}}
+	g.pool = &poolRec{ids: map[uintptr]int{}, emit: g.route}
+	for i, m := range p.PMs {
+		pay := payFor(p.Seed, 500+i, m.Type, m.N)
+		if m.Type == 8 && m.N >= 2 {
+			pay = wire.CloseBody(1000, wire.TextPay(p.Seed, 500+i, m.N-2))
+		}
+		keep := append([]byte{}, pay...)
+		pm, _ := websocket.NewPreparedMessage(m.Type, pay)
+		g.pms = append(g.pms, pm)
+		g.pmPay = append(g.pmPay, keep)
+	}
+	res := make([][]Ev, len(p.Conns))
+	var wg sync.WaitGroup
+	for i := range p.Conns {
+		sub := &WProg{ID: p.ID, Conns: []WConn{p.Conns[i]}, PMs: p.PMs, Seed: p.Seed + uint64(i)}
+		for _, o := range p.Ops {
+			if o.C == i {
+				o2 := o
+				o2.C = 0
+				sub.Ops = append(sub.Ops, o2)
+			}
+		}
+		wg.Add(1)
+		go func(i int, sub *WProg) {
+			defer wg.Done()
+			e, _, _ := runWriterShared(sub, nil, fmt.Sprintf("%s/c%d", p.ID, i), g)
+			res[i] = e
+		}(i, sub)
+	}
+	wg.Wait()
+	for _, e := range res {
+		evs = append(evs, e...)
+	}
+	if !g.pool.finalCheck() {
+		evs = append(evs, Ev{"e": "TOUCHED"})
+	}
+	return evs
 }
